@@ -624,6 +624,10 @@ class FnEmitter:
             # relational comparison of possibly unrelated pointers (the 'is v inside [begin, end)' idiom): total order on (object, offset)
             self.f.l0.add('L0_PTR_CMP')
             return 'L0_PTR_CMP(%s, %s, %s)' % (self.rv(a), op, self.rv(b))
+        if op == '-' and ta.endswith('*') and tb.endswith('*'):
+            # nullptr - nullptr == 0 is well defined in C++ (empty amc::vector: begin() is null)
+            self.f.l0.add('L0_PDIFF')
+            return 'L0_PDIFF(%s, %s)' % (self.rv(a), self.rv(b))
         if op in ('+', '-') and ta.endswith('*') and not tb.endswith('*'):
             # p + 0 is well defined for a null p in C++; keep CBMC's check for every non-zero offset
             self.f.l0.add('L0_PADD')
@@ -688,6 +692,12 @@ class FnEmitter:
         self.pre.append('%s = %s;' % (t, text))
         self.pre.append(self.exc_check())
         return deref(t) if ret_ref else t
+
+    def emit_stmt_call(self, text, may_throw):
+        """a call executed for its effect only (constructors, assignments): always emitted as a statement"""
+        self.pre.append('%s;' % text)
+        if may_throw:
+            self.pre.append(self.exc_check())
 
     def call(self, e, discard=False):
         k = e['kind']
@@ -809,7 +819,7 @@ class FnEmitter:
                 prim = 'L0_E_move_assign' if p0.endswith('&&') else 'L0_E_copy_assign'
                 self.f.l0.add(prim)
                 text = '%s(%s, %s)' % (prim, thisarg(), self.addr(args[0]))
-                self.emit_call(text, 'void', prim == 'L0_E_copy_assign' or not L.facts.get('nothrow_move_assign', True), discard=True)
+                self.emit_stmt_call(text, prim == 'L0_E_copy_assign' or not L.facts.get('nothrow_move_assign', True))
                 return deref(thisarg())
             if name.startswith('~'):
                 self.f.l0.add('L0_E_destroy')
@@ -868,7 +878,7 @@ class FnEmitter:
                     prim = 'L0_E_construct_from__' + '_'.join(self.tm.tag(self.tm.canon(p)) for p in ptypes)
                     at = [self.arg_for_param(self.tm.canon(p), a_) for p, a_ in zip(ptypes, args)]
                 self.f.l0.add(prim)
-                self.emit_call('%s(%s)' % (prim, ', '.join([dest] + at)), 'void', not nothrow)
+                self.emit_stmt_call('%s(%s)' % (prim, ', '.join([dest] + at)), not nothrow)
                 return
             canon = self.canon_t(e)
             ctor = self.L.find_ctor(canon, ptypes)
@@ -879,7 +889,7 @@ class FnEmitter:
                 params = [c for c in ctor.node.get('inner', []) if c.get('kind') == 'ParmVarDecl']
                 at = ['((%s *)%s)' % (self.tm.ctype(canon), self.paren(dest))] + [self.arg_for_param(self.tm.canon_of(p['type']), a_) for p, a_ in zip(params, args)]
                 self.f.callees.add(ctor.cname)
-                self.emit_call('%s(%s)' % (ctor.cname, ', '.join(at)), 'void', self.L.may_throw(ctor))
+                self.emit_stmt_call('%s(%s)' % (ctor.cname, ', '.join(at)), self.L.may_throw(ctor))
                 return
             self.pre.append('%s = %s;' % (deref(dest), self.construct_value(e)))
             return
